@@ -147,7 +147,19 @@ def r19_2(ctx: Ctx, entry, pr, prev, class_table):
                "input validation failure raises the exit-1 class" if ok else f"input validation raises {cls}, which is not mapped to exit 1",
                key=key_of("R19.2", vt, r))
     # validation covers: missing, not-a-file, empty
-    tests = " ".join(norm(n.test) for n in own_nodes(vt) if isinstance(n, ast.If))
+    # (the probes may be bound to names first: the tests are followed through local assignments)
+    from ..order import local_resolver as _lr19
+    _res = _lr19(vt.node)
+
+    def _expand(e, depth=0):
+        t = norm(e)
+        if depth < 4:
+            for x in ast.walk(e):
+                if isinstance(x, ast.Name):
+                    for v in _res(x):
+                        t += " " + _expand(v, depth + 1)
+        return t
+    tests = " ".join(_expand(n.test) for n in own_nodes(vt) if isinstance(n, ast.If))
     for need, what in (("exists", "missing file"), ("is_file", "directory / non-file"), ("st_size", "empty file")):
         ok = need in tests and len(raises) >= 1
         ctx.ob("R19.2", f"{vt.qual}: checks {what}", vt, ok,
@@ -386,6 +398,65 @@ def r19_3_spool(ctx: Ctx, entry):
         raise AnchorMissing("plan.report: stdin spool (os.fdopen) not found")
 
 
+def r19_8(ctx: Ctx, entry):
+    """Input handling of the command:
+      (a) what is written into the temporary project file is the input's content, constants and the random report id -- never
+          the input's NAME (a name is not project text: a newline in it ends the comment it was quoted in);
+      (b) every file-system probe of validate_tjp_file sits in a try that maps OSError to the exit-1 class;
+      (c) file and stdin use the same notion of "empty" (white space only), so the same bytes give the same exit code."""
+    repo = ctx.repo
+    ca = repo.func("create_auto_report_file")
+    fd = ctx.dep.of(ca)
+    pth = ca.params[0] if ca.params else "tjp_path"
+    n = 0
+    for c in own_nodes(ca):
+        if isinstance(c, ast.Call) and isinstance(c.func, ast.Attribute) and c.func.attr in ("write", "writelines") and c.args:
+            atoms = data(fd.deps_of(c.args[0]))
+            n += 1
+            ok = (f"param:{pth}" not in atoms) or ("call:read" in atoms)
+            ctx.ob("R19.8", f"{ca.qual}: {norm(c)[:70]}", (ca, c), ok,
+                   "content, constants and the report id only" if ok else
+                   f"the text written into the temporary project file is built from the input's name ({pth}), not from its content: a file name "
+                   "with a newline (or a quote) becomes project text, and the same bytes give a different result from a file than from stdin",
+                   key=key_of("R19.8", ca, c.args[0], "name as project text"))
+    if n < 2:
+        raise AnchorMissing("create_auto_report_file: writes of the temporary project file not found")
+    vt = repo.func("validate_tjp_file")
+    probes = [c for c in own_nodes(vt) if isinstance(c, ast.Call) and isinstance(c.func, ast.Attribute)
+              and c.func.attr in ("exists", "is_file", "is_dir", "stat", "read_bytes", "read_text", "resolve", "lstat")]
+    if not probes:
+        raise AnchorMissing("validate_tjp_file: no file-system probe found")
+    for c in probes:
+        guarded = False
+        p_ = getattr(c, "_parent", None)
+        while p_ is not None and p_ is not vt.node:
+            if isinstance(p_, ast.Try) and any(c is y for st in p_.body for y in ast.walk(st)):
+                for h in p_.handlers:
+                    names = [norm(h.type)] if h.type is not None and not isinstance(h.type, ast.Tuple) else [norm(e) for e in getattr(h.type, "elts", [])]
+                    if any(n_ in ("OSError", "Exception", "IOError", "EnvironmentError") for n_ in names) and any(
+                            isinstance(x, ast.Raise) and x.exc is not None and EXPECTED_CODES.get(norm(x.exc.func if isinstance(x.exc, ast.Call) else x.exc)) == 1
+                            for st in h.body for x in ast.walk(st)):
+                        guarded = True
+            p_ = getattr(p_, "_parent", None)
+        ctx.ob("R19.8", f"{vt.qual}: probe {norm(c)[:40]}", (vt, c), guarded,
+               "an OSError of the probe is reported as unusable input (exit 1)" if guarded else
+               f"{norm(c)[:40]} can raise OSError (name too long, no permission on a directory of the path); nothing maps it to the exit-1 class, "
+               "so a missing input ends as an internal error (exit 2)",
+               key=key_of("R19.8", vt, c, "probe guarded"))
+    # (c) emptiness
+    file_strip = any(isinstance(x, ast.Call) and isinstance(x.func, ast.Attribute) and x.func.attr == "strip" for x in own_nodes(vt))
+    stdin_strip = any(isinstance(i, ast.If) and "stdin" in norm(i.test) and "strip" in norm(i.test) for i in own_nodes(entry))
+    stdin_test = any(isinstance(i, ast.If) and "stdin" in norm(i.test) and norm(i.test).startswith("not ") for i in own_nodes(entry))
+    if not stdin_test:
+        raise AnchorMissing("plan.report: emptiness test of stdin not found")
+    ok = file_strip == stdin_strip
+    ctx.ob("R19.8", f"empty input: file test ignores white space={file_strip}, stdin test ignores white space={stdin_strip}", vt, ok,
+           "a file and the same bytes on stdin are judged empty alike" if ok else
+           "a file is empty only at size 0 while stdin is empty when it holds nothing but white space (or the reverse): the same bytes exit 1 "
+           "through one channel and 2 through the other",
+           key="R19.8|validate_tjp_file|empty alike")
+
+
 def r19_7(ctx: Ctx):
     """Report.generate reaches its per-format dispatch on every path that returns normally: there is no way to "succeed" without
     having asked each requested format's writer (a header-only table is still a report; CFG dominance)."""
@@ -454,6 +525,8 @@ def run(ctx: Ctx):
     r19_5(ctx)
     r19_6(ctx)
     r19_7(ctx)
+    r19_8(ctx, entry)
+    ctx.floor("R19.8", 6)
     ctx.floor("R19.7", 1)
     ctx.stats["branches_decided_by_constants"] = len(set(pr.pruned_branches))
     ctx.floor("R19.1", 5)
